@@ -99,8 +99,8 @@ CompileReachesFixpoint ==
 EachPassIdempotent ==
   \A mi \in 1..Len(gM) :
      /\ PassCO(PassCO(gM, mi), mi) = PassCO(gM, mi)
-     /\ PassEI(PassEI(gM, mi), mi) = PassEI(gM, mi)
-     /\ PassTAGS(PassTAGS(gM, mi), mi) = PassTAGS(gM, mi)
+     /\ PassEI(PassEI(gM, mi, Devs), mi, Devs) = PassEI(gM, mi, Devs)
+     /\ PassTAGS(PassTAGS(gM, mi, Devs), mi, Devs) = PassTAGS(gM, mi, Devs)
      /\ \A ne \in BOOLEAN :
           LET a == PassDEF(gM, mi, ne, Devs)
           IN a.err = "" => PassDEF(a.m, mi, ne, Devs) = a
